@@ -39,15 +39,61 @@ def queue_diff(ctx, replay=None):
     return {"violations": [], "disagreements": dis, "coverage": {"random_queue_ops": len(lines)}}
 
 
+def equal_constant_cases(only=None):
+    """Two nodes are not the same node because they hold equal constants: a literal that something must WAIT for (the target
+    of add_dependency) next to an unrelated call that is given an equal constant.  Asking for the unrelated call must not run
+    what the literal waits for."""
+    import uberjob
+    viol, done = [], 0
+    for const in (0, 1, "x", None, True, 1.5, b"b"):
+        for scoped in (False, True):
+            if only and [repr(const), scoped] != list(only):
+                continue
+            ran = []
+            plan = uberjob.Plan()
+
+            def build():
+                w = plan.call(lambda: ran.append("write_file"))
+                lit = plan.lit(const)
+                plan.add_dependency(w, lit)
+                a = plan.call(lambda v: ran.append("use") or v, lit)
+                label = plan.call(lambda v: ran.append("label") or v, const)
+                return a, label
+            if scoped:
+                with plan.scope("s"):
+                    a, label = build()
+            else:
+                a, label = build()
+            got = uberjob.run(plan, output=label, progress=None, max_workers=1)
+            done += 1
+            if sorted(ran) != ["label"] or got != const:
+                viol.append({"property": "C04", "what": f"constant {const!r}{' in a scope' if scoped else ''}: asking for a call that is given "
+                             f"the constant executed {sorted(ran)}; needed: ['label']", "replay_fn": "equal-constant",
+                             "const_case": [repr(const), scoped]})
+                continue
+            del ran[:]
+            uberjob.run(plan, output=a, progress=None, max_workers=1)
+            if sorted(ran) != ["use", "write_file"]:
+                viol.append({"property": "C04", "what": f"constant {const!r}: asking for the consumer of the literal executed {sorted(ran)}; "
+                             "needed: ['use', 'write_file']", "replay_fn": "equal-constant", "const_case": [repr(const), scoped]})
+    return viol, done
+
+
 def extras(ctx, replay=None):
     """the queue differential, and - for `C04_runs_exactly_needed` - histories of real runs WITH a registry in which the calls
     executed by every successful run are compared with `Needed` evaluated on the plan (cache_explore.needed_calls)"""
     from harness import cache_explore as ce
     if replay is not None:
+        if replay.get("replay_fn") == "equal-constant":
+            v, _ = equal_constant_cases(only=replay["const_case"])
+            return v[0]["what"] if v else None
         if "spec" in replay and "hseed" in replay:
             return ce.replay_cache(ctx, replay, {"C04"})
         return None
     a = queue_diff(ctx)
+    v, n = equal_constant_cases()
+    a["violations"] += v[:2]
+    a["coverage"]["equal_constant_cases"] = n
     h = ce.explore_cache(ctx, {"C04"}, 90 if ctx.tier == "quick" else 1500, steps=5)
     a["violations"] += h["violations"]
     for v in a["violations"]:
